@@ -485,6 +485,57 @@ def rule_json_serializer(ck: Check, repo: Repo, rid: str = "R10") -> None:
     r.floor(3, "cells of the serializer", got=n)
 
 
+PLAIN_SUMMARY = {
+    "Bad licenses:": "bad_licenses", "Deprecated licenses:": "deprecated_licenses",
+    "Licenses without file extension:": "licenses_without_extension", "Missing licenses:": "missing_licenses",
+    "Unused licenses:": "unused_licenses", "Used licenses:": "used_licenses", "Read errors:": "read_errors",
+    "Files with copyright information:": "files_without_copyright", "Files with license information:": "files_without_licenses",
+}
+
+
+def rule_plain_labels(ck: Check, repo: Repo, rid: str = "R11") -> None:
+    """The plain rendering says under each heading what that heading names: a section guarded by `if report.X:` lists X, and a
+    summary line labelled 'X:' is computed from X (second mutant sweep: attribute swaps in format_plain survived the suite and
+    the coverage rule, which only asks that every category is rendered SOMEWHERE)."""
+    r = ck.rule(rid, "format_plain: every section lists the category of its guard, every summary label shows its own category")
+    q = "reuse.lint.format_plain"
+    fn = repo.func(q)
+    ck.analysed_fn(q)
+    n = 0
+    for node in ast.walk(fn):
+        if isinstance(node, ast.If) and isinstance(node.test, ast.Attribute) and ast.unparse(node.test.value) == "report":
+            cat = node.test.attr
+            loops = [st for st in node.body if isinstance(st, ast.For)]
+            for lp in loops:
+                attrs = sorted(_attrs_in(lp.iter, "report"))
+                n += 1
+                r.instance(f"section:{cat}", {"guard": cat, "lists": attrs}, q)
+                if attrs and cat not in attrs:
+                    r.violation(q, f"the section shown when report.{cat} is non-empty lists report.{attrs[0]}",
+                                f"`for {ast.unparse(lp.target)} in {ast.unparse(lp.iter)[:60]}` under `if report.{cat}:` - the heading of"
+                                f" category {cat} is followed by the entries of another category", repo.loc(lp))
+    dicts = [d for d in ast.walk(fn) if isinstance(d, ast.Dict) and d.keys and all(
+        k is not None and isinstance(k, ast.Call) and ast.unparse(k.func) == "_" and k.args and isinstance(k.args[0], ast.Constant) for k in d.keys)]
+    seen = 0
+    for d in dicts:
+        for k, v in zip(d.keys, d.values):
+            label = k.args[0].value
+            want = PLAIN_SUMMARY.get(label)
+            if want is None:
+                continue
+            attrs = sorted(_attrs_in(v, "report"))
+            seen += 1
+            r.instance(f"summary:{label}", {"label": label, "computed_from": attrs}, q)
+            if attrs != [want]:
+                r.violation(q, f"summary line '{label}' is computed from report.{', report.'.join(attrs) or '<nothing>'}",
+                            f"the line labelled '{label}' must show report.{want}: the plain summary then names one category and shows"
+                            " another, while the JSON summary and the verdict use the right one", repo.loc(v))
+    if seen < 6:
+        ck.defer(AnalysisError(f"{rid}: the summary table of format_plain (a dict of translated labels) was not found in the shape this rule"
+                               f" reads ({seen} labelled entries): label/category agreement of the plain summary is not decided"))
+    r.floor(4, "guarded sections of format_plain", got=n)
+
+
 def run(ck: Check, repo: Repo) -> None:
     ck.explanation = (
         "Sibling agreement between the four renderings of one report: for format_plain, format_lines"
@@ -502,6 +553,7 @@ def run(ck: Check, repo: Repo) -> None:
     rule_exit(ck, repo)
     rule_dispatch(ck, repo)
     rule_json_serializer(ck, repo)
+    rule_plain_labels(ck, repo)
     r5 = ck.rule("R5", "lint-file's subset is compared like with like (resolved requested paths vs resolved candidates)")
     from . import c03
     c03.subset_normalisation(r5, repo)
